@@ -37,6 +37,9 @@ var fnTargets = []struct {
 	// a method without result returns the receiver's new value, one that can panic returns an Option
 	{"RingBufferRateLimiter.advance", "def RingBufferRateLimiter_advance {τ : Type} [Inhabited τ] (r : RingBufferRateLimiter τ) : RingBufferRateLimiter τ := r", nil},
 	{"RingBufferRateLimiter.SetMaxEvents", "def RingBufferRateLimiter_SetMaxEvents {τ : Type} [Inhabited τ] (r : RingBufferRateLimiter τ) (_ : Int) : Option (RingBufferRateLimiter τ) := some r", nil},
+	// functions over time.Time values (Go.Time, CM/Lib/GoLite): `time.Now()` is the parameter `now`
+	{"fileLockIsStale", "def fileLockIsStale (_ : Go.Time) (_ : lockMeta) : Bool := false", nil},
+	{"currentOCSP", "def currentOCSP (_ : Go.Time) (_ : ocsp_Response) : Bool := false", nil},
 	{"SubjectQualifiesForCert", "def SubjectQualifiesForCert (_ : Str) : Bool := false", nil},
 	{"MatchWildcard", "def MatchWildcard (_ _ : Str) : Bool := false", nil},
 	{"SubjectIsInternal", "def SubjectIsInternal (_ : Str → Str) (_ : Str → Bool) (_ : Str) : Bool := false",
@@ -48,7 +51,30 @@ var fnTargets = []struct {
 // `r.mu` are skipped (atomicity is the guarded-state checker's subject, CM/Tie/Guard*.lean)
 var fnStructs = map[string][][3]string{
 	"RingBufferRateLimiter": {{"window", "time.Duration", "Int"}, {"ring", "[]time.Time", "List τ"}, {"cursor", "int", "Int"}},
+	"lockMeta":              {{"Created", "time.Time", "Go.Time"}, {"Updated", "time.Time", "Go.Time"}},
+	// a type of another package: its fields cannot be checked against this repository's source
+	"ocsp.Response": {{"ThisUpdate", "time.Time", "Go.Time"}, {"NextUpdate", "time.Time", "Go.Time"}},
 }
+
+// structs whose time.Time fields are an abstract element type τ (everything else: Go.Time)
+var fnGeneric = map[string]bool{"RingBufferRateLimiter": true}
+
+// Go identifiers that are Lean keywords are written «…»
+var leanKeywords = map[string]bool{"meta": true, "end": true, "from": true, "fun": true, "at": true, "do": true, "then": true,
+	"else": true, "let": true, "have": true, "show": true, "open": true, "in": true, "instance": true, "structure": true,
+	"class": true, "namespace": true, "section": true, "theorem": true, "def": true, "where": true, "with": true,
+	"match": true, "by": true, "Type": true, "Prop": true, "Sort": true, "local": true, "private": true, "public": true,
+	"import": true, "export": true, "mutual": true, "universe": true, "variable": true, "example": true, "axiom": true,
+	"using": true, "calc": true, "suffices": true, "obtain": true, "nomatch": true, "deriving": true, "extends": true, "macro": true, "syntax": true}
+
+func lid(n string) string {
+	if leanKeywords[n] {
+		return "«" + n + "»"
+	}
+	return n
+}
+
+func leanStructName(goName string) string { return strings.ReplaceAll(goName, ".", "_") }
 
 func init() { generators["Fn"] = genFn }
 
@@ -88,6 +114,20 @@ func checkStruct(p *pkgInfo, sn string) bool {
 	return false
 }
 
+// does the body read the clock (time.Now / time.Since / time.Until)?
+func usesNow(b *ast.BlockStmt) bool {
+	found := false
+	ast.Inspect(b, func(n ast.Node) bool {
+		if se, ok := n.(*ast.SelectorExpr); ok {
+			if id, ok := se.X.(*ast.Ident); ok && id.Name == "time" && (se.Sel.Name == "Now" || se.Sel.Name == "Since" || se.Sel.Name == "Until") {
+				found = true
+			}
+		}
+		return true
+	})
+	return found
+}
+
 func fnPanics(b *ast.BlockStmt) bool {
 	found := false
 	ast.Inspect(b, func(n ast.Node) bool {
@@ -119,6 +159,7 @@ type fnCtx struct {
 	void    bool              // method without result: returns the receiver's new value
 	opt     bool              // may panic: the result is an Option, `panic` is `none`
 	slices  map[string]bool   // locals known to be slices (made with `make([]T, n)`)
+	structVars map[string]string // parameters of a modelled struct type -> that type
 	brk     bool              // the innermost loop contains `break` (its body yields Step3)
 }
 
@@ -153,11 +194,14 @@ func genFn(p *pkgInfo, l *leanFile) {
 	}
 	sort.Strings(snames)
 	for _, sn := range snames {
-		okS := checkStruct(p, sn)
-		if !okS {
+		if !strings.Contains(sn, ".") && !checkStruct(p, sn) {
 			miss("struct " + sn + " no longer has the modelled fields with the expected types")
 		}
-		l.pf("/-- the modelled fields of `type %s struct` (τ = time.Time; its zero value is `default`) -/\nstructure %s (τ : Type) where\n", sn, sn)
+		if fnGeneric[sn] {
+			l.pf("/-- the modelled fields of `type %s struct` (τ = time.Time; its zero value is `default`) -/\nstructure %s (τ : Type) where\n", sn, sn)
+		} else {
+			l.pf("/-- the modelled fields of `%s` -/\nstructure %s where\n", sn, leanStructName(sn))
+		}
 		for _, f := range fnStructs[sn] {
 			l.pf("  %s : %s\n", f[0], f[2])
 		}
@@ -191,6 +235,8 @@ func genFn(p *pkgInfo, l *leanFile) {
 	facts["fn_translated"] = done
 }
 
+var genericTime bool // translating a method of a τ-generic struct
+
 func leanType(e ast.Expr) string {
 	switch t := e.(type) {
 	case *ast.Ident:
@@ -206,12 +252,27 @@ func leanType(e ast.Expr) string {
 		if t.Len == nil {
 			return "(List " + leanType(t.Elt) + ")"
 		}
+	case *ast.StarExpr:
+		if _, ok := fnStructs[types.ExprString(t.X)]; ok {
+			return leanStructName(types.ExprString(t.X)) // a pointer the function only reads through
+		}
 	case *ast.SelectorExpr:
 		switch types.ExprString(t) {
 		case "time.Time":
-			return "τ"
+			if genericTime {
+				return "τ"
+			}
+			return "Go.Time"
 		case "time.Duration":
 			return "Int"
+		}
+		if _, ok := fnStructs[types.ExprString(t)]; ok {
+			return leanStructName(types.ExprString(t))
+		}
+	}
+	if id, ok := e.(*ast.Ident); ok {
+		if _, ok := fnStructs[id.Name]; ok && !fnGeneric[id.Name] {
+			return id.Name
 		}
 	}
 	fnFail("type %T not supported", e)
@@ -228,10 +289,14 @@ func trFunc(p *pkgInfo, fd *ast.FuncDecl, tg map[string]bool, externs [][2]strin
 			panic(r)
 		}
 	}()
-	c := &fnCtx{p: p, ranged: map[string]string{}, targets: tg, externs: map[string]bool{}, slices: map[string]bool{}}
+	c := &fnCtx{p: p, ranged: map[string]string{}, targets: tg, externs: map[string]bool{}, slices: map[string]bool{}, structVars: map[string]string{}}
 	var params []string
 	name := fd.Name.Name
 	generic := ""
+	genericTime = false
+	if usesNow(fd.Body) {
+		params = append(params, "(now : Go.Time)")
+	}
 	if fd.Recv != nil && len(fd.Recv.List) == 1 && len(fd.Recv.List[0].Names) == 1 {
 		t := fd.Recv.List[0].Type
 		if st, ok := t.(*ast.StarExpr); ok {
@@ -243,6 +308,10 @@ func trFunc(p *pkgInfo, fd *ast.FuncDecl, tg map[string]bool, externs [][2]strin
 		}
 		c.recv = fd.Recv.List[0].Names[0].Name
 		name = c.recvTy + "_" + name
+		if !fnGeneric[c.recvTy] {
+			fnFail("methods of non-generic structs are not supported yet")
+		}
+		genericTime = true
 		generic = "{τ : Type} [Inhabited τ] "
 		params = append(params, fmt.Sprintf("(%s : %s τ)", c.recv, c.recvTy))
 	}
@@ -265,7 +334,14 @@ func trFunc(p *pkgInfo, fd *ast.FuncDecl, tg map[string]bool, externs [][2]strin
 	}
 	for _, f := range fd.Type.Params.List {
 		for _, n := range f.Names {
-			params = append(params, fmt.Sprintf("(%s : %s)", n.Name, leanType(f.Type)))
+			params = append(params, fmt.Sprintf("(%s : %s)", lid(n.Name), leanType(f.Type)))
+			t := f.Type
+			if st, ok := t.(*ast.StarExpr); ok {
+				t = st.X
+			}
+			if _, ok := fnStructs[types.ExprString(t)]; ok {
+				c.structVars[n.Name] = types.ExprString(t)
+			}
 		}
 	}
 	body := c.stmts(fd.Body.List, "  ")
@@ -629,7 +705,7 @@ func (c *fnCtx) stmts(list []ast.Stmt, ind string) string {
 		for i, lhs := range s.Lhs {
 			switch x := lhs.(type) {
 			case *ast.Ident:
-				names = append(names, x.Name)
+				names = append(names, lid(x.Name))
 				vals = append(vals, c.expr(s.Rhs[i]))
 			case *ast.IndexExpr:
 				base, ok := x.X.(*ast.Ident)
@@ -789,7 +865,15 @@ func (c *fnCtx) expr(e ast.Expr) string {
 		case "true", "false":
 			return x.Name
 		}
-		return x.Name
+		if x.Obj == nil || x.Obj.Kind == ast.Con {
+			// a package-level duration / integer constant: its value
+			if v := c.p.valueOf(x.Name); v != nil {
+				if n, ok := durationNs(v); ok {
+					return fmt.Sprintf("(%d : Int)", n)
+				}
+			}
+		}
+		return lid(x.Name)
 	case *ast.BasicLit:
 		switch x.Kind {
 		case token.STRING:
@@ -820,6 +904,10 @@ func (c *fnCtx) expr(e ast.Expr) string {
 			return "(" + a + " && " + b + ")"
 		case token.LOR:
 			return "(" + a + " || " + b + ")"
+		case token.MUL:
+			return "(" + a + " * " + b + ")"
+		case token.QUO:
+			return "(Int.tdiv " + a + " " + b + ")"
 		case token.ADD:
 			return "(" + a + " + " + b + ")"
 		case token.SUB:
@@ -835,6 +923,14 @@ func (c *fnCtx) expr(e ast.Expr) string {
 		}
 		fnFail("binary %s not supported", x.Op)
 	case *ast.SelectorExpr:
+		if id, ok := x.X.(*ast.Ident); ok && c.structVars[id.Name] != "" {
+			for _, f := range fnStructs[c.structVars[id.Name]] {
+				if f[0] == x.Sel.Name {
+					return lid(id.Name) + "." + x.Sel.Name
+				}
+			}
+			fnFail("field %s of %s is not modelled", x.Sel.Name, c.structVars[id.Name])
+		}
 		if id, ok := x.X.(*ast.Ident); ok && id.Name == c.recv && c.recv != "" {
 			for _, f := range fnStructs[c.recvTy] {
 				if f[0] == x.Sel.Name {
@@ -884,7 +980,26 @@ func (c *fnCtx) expr(e ast.Expr) string {
 			fnFail("call of %s not supported", f.Name)
 		case *ast.SelectorExpr:
 			pk, ok := f.X.(*ast.Ident)
+			if ok && pk.Name == "time" {
+				switch {
+				case f.Sel.Name == "Now" && len(args) == 0:
+					return "now"
+				case f.Sel.Name == "Since" && len(args) == 1:
+					return "(Go.time_Sub now " + args[0] + ")"
+				case f.Sel.Name == "Until" && len(args) == 1:
+					return "(Go.time_Sub " + args[0] + " now)"
+				}
+				fnFail("time.%s not supported", f.Sel.Name)
+			}
 			if !ok || pk.Name != "strings" {
+				// methods of time.Time values (recognised by name: no type information here)
+				recvE := paren(c.expr(f.X))
+				switch {
+				case f.Sel.Name == "IsZero" && len(args) == 0:
+					return "(Go.time_IsZero " + recvE + ")"
+				case (f.Sel.Name == "Before" || f.Sel.Name == "After" || f.Sel.Name == "Add" || f.Sel.Name == "Sub" || f.Sel.Name == "Equal") && len(args) == 1:
+					return "(Go.time_" + f.Sel.Name + " " + recvE + " " + args[0] + ")"
+				}
 				fnFail("call of a method or of package %v not supported", f.X)
 			}
 			switch f.Sel.Name {
